@@ -108,6 +108,36 @@ def c17_raw_level_canbevaries():
         set_default_validation_level(VL.TOLERANT)
 
 
+import os
+PROFILES = '/repo/tests/profiles'
+QBP = ('MSH|^~\\&|SENDING APP|SENDING FAC|REC APP|REC FAC|20110708162817||QBP^Q22^QBP_Q21|1|P|2.5|||||ITA||EN\r'
+       'QPD|IHE PDQ Query|111069|@PID.5.1.1^SMITH~@PID.5.2^JOHN~@PID.8^A|||||^^^ADT1&1.2.3&ISO\r'
+       'RCP|I|')
+
+
+@case
+def c18_find_groups_false_drops_profile():
+    mp = hl7apy.load_message_profile(os.path.join(PROFILES, 'iti_21'))
+    txt = ('MSH|^~\\&|SENDING APP|SENDING FAC|REC APP|REC FAC|20110708162817||RSP^K22^RSP_K21|1|P|2.5|||||ITA||EN\r'
+           'MSA|AA|26775702551812240|\rQAK|1|OK||1|1|0\r'
+           'QPD|IHE PDQ Query|111069|@PID.5.1.1^SMITH~@PID.5.2^JOHN|||||^^^ADT1&1.2.3&ISO\r')
+    a = parse_message(txt, message_profile=mp, find_groups=True)
+    b = parse_message(txt, message_profile=mp, find_groups=False)
+    da = a.qpd.qpd_3.datatype
+    db = b.qpd.qpd_3.datatype
+    return (da, db), da != db
+
+
+@case
+def c18_legacy_profile_via_parse_message():
+    name = 'old_pharm_h4_win' if os.name == 'nt' else 'old_pharm_h4'
+    mp = hl7apy.load_message_profile(os.path.join(PROFILES, name))
+    a = raises(LegacyMessageProfile, Message, 'RAS_O17', reference=mp)
+    txt = 'MSH|^~\\&|A|B|C|D|20110708162817||RAS^O17^RAS_O17|1|P|2.5\rPID|1\r'
+    b = raises(LegacyMessageProfile, parse_message, txt, message_profile=mp)
+    return (a, b), a is True and b is not True
+
+
 if __name__ == '__main__':
     names = sys.argv[1:] or sorted(CASES)
     for n in names:
